@@ -113,6 +113,8 @@ def exec_cases():
           '0.00', '1.5 - 1.50', '4.50 % 1.5', '0.0 + 0.00', '0.000 * 5', 'z = 0.0; z', '[0.00, 0, 0.0]', '0.10 - 0.1', '2.50 - 2.5 == 0', '-0.00', '0.00 == 0',
           # a string literal whose content is a delimiter, separator, operator or the word EOF is a string like any other (C03 / C05 / C10)
           "']' in ['[', ']']", "['a', ']', 1+1]", "{'}': 1, 'k': 2>1}", "'EOF' == 'EOF'", "1 + 2; 'EOF' beginWith 'E'", "(')')", "id(')')", "[')', '(', ',', ':', ';', '?', '{', '}']", "cnt('(', ')')", "'EOF'", "['EOF', 1]", "x = ']'; x", "true ? ':' : '?'", "{':': ','}", "',' in [',', ';']", "';' == ';'; 2",
+          # names are compared exactly: case, length (C06 / C07 / C08)
+          'total = 1; Total = 2; total', 'total = 1; TOTAL', 'n = 5; N = 100; n += 1; [n, N]', 'Count = 3; [Count, count]', 'TRUE', 'FALSE ? 1 : 2', '[false, FALSE, tRue]', 'x = TRUE; x', 'True', 'IN', 'Not', 'x = 1; X', 'one; One', 'One()',
           # map entries are evaluated in source order, whatever their keys look like, duplicates included (C07)
           '{two(): one(), one(): two()}', '{t(): 1, one(): 2, cnt(): 3}', '{one(): two(), one(): t()}', '{two(): boom(), one(): t()}', '{t(): f(), id(1): cnt(), f(): one()}', "{'b': one(), 'a': two()}", '{2: two(), 1: one()}', '{two(): 1, boom(): 2, one(): 3}',
           # a chain whose LAST statement has an effect (C07/C06: every statement runs exactly once, the last one included)
@@ -163,6 +165,15 @@ def boundary_exec_cases():
     for args in [(M, '2', '1'), (M, '2', '0'), (M, M, '0'), ('2', M, '0.5'), ('1', M, '1', '10', '1'), ('(-%s)' % M, '(-2)', '1'), (M, '1.5', '1', '1')]:
         c.append('mul(%s)' % ', '.join(args))
     c += ['a = sum(%s, 1, 0); a > 0' % M, 'min(1, 2, 3)', 'min(5, (-4), 0, 9)', 'min(1, 2)', 'min(2, 2)', 'max(1, 9, 3)', 'max(9, 1, 3, 9)', 'min(3, 1, 2, 1, 5)', 'max((-1), (-9), (-3))', 'min(0.5, 0.50, 0.05)', 'max(0.5, 0.50, 5.0)']
+    # size thresholds (C03 / C06 / C07: nothing changes at 16, 24, 32, 64 arguments, elements or bytes)
+    for k in (17, 25, 33, 40, 65, 130, 257):
+        c.append('max(' + ', '.join(['1'] * (k - 1)) + ', 99)'); c.append('min(' + ', '.join(['5'] * (k - 1)) + ', (-7))'); c.append('max(99, ' + ', '.join(['1'] * (k - 1)) + ')')
+        c.append('sum(' + ', '.join(['1'] * k) + ')'); c.append('mul(' + ', '.join(['1'] * (k - 1)) + ', 3)'); c.append('%d in [' % (k - 1) + ', '.join(str(i) for i in range(k)) + ']')
+        c.append('[1, boom(), ' + ', '.join(['one()'] * (k - 2)) + ']'); c.append('cnt(1, boom(), ' + ', '.join(['one()'] * (k - 2)) + ')'); c.append('cnt(' + ', '.join(['one()'] * k) + ')')
+        c.append('[' + ', '.join(['two()'] * (k - 1)) + ', nope()]'); c.append('{' + ', '.join('%d: one()' % i for i in range(k)) + '}')
+    for k in (31, 33, 63, 65, 70, 129, 257):
+        V = 'v' * k
+        c.append('%s_a = 1; %s_b = 2; %s_a' % (V, V, V)); c.append('%s_a = 1; %s_b' % (V, V)); c.append('%sa = 1; %sb = 2; [%sa, %sb]' % (V, V, V, V))
     c += ['9223372036854775807++', '(-9223372036854775808)--', '79228162514264337593543950335++', '-(-9223372036854775808)', '- 79228162514264337593543950335', '+(-0.5)']
     return c
 
@@ -199,6 +210,18 @@ def long_parse_cases():
         c.append(' ? '.join('c%d' % i for i in range(n)) + ' : z' * (n - 1))
         c.append('[' * n + 'a not in b' + ']' * n)
         c.append("{'k':" * n + 'a not in b' + '}' * n)
+    # size thresholds between 8 and 300 (C01/C05/C10/C12: nothing changes at 16, 24, 32, 64, 128, 255/256 elements, bytes or levels)
+    for k in (15, 16, 17, 21, 22, 31, 32, 33, 42, 43, 63, 64, 65, 85, 86, 127, 128, 129, 130):
+        c.append('é' * k); c.append('中' * k); c.append('1 + a' + 'é' * k); c.append('f' + '中' * k + '(1)')
+    for k in (2, 9, 17, 25, 33, 65, 129, 255, 256, 257, 300, 512):
+        c.append('[' + ' '.join(['1'] * k) + ']'); c.append('f(' + ' '.join(['1'] * k) + ')'); c.append('{' + ' '.join(['1:1'] * k) + '}')
+        c.append('[' + ' '.join(['1'] * k) + ', 2, 3]'); c.append('[' + ', '.join(['1'] * k) + ']'); c.append('{' + ', '.join(['%d:1' % i for i in range(k)]) + '}')
+    for k in (30, 100, 127, 128, 129, 200, 254, 255, 256, 257, 300):
+        c.append("'" + 'x' * k + '"tail' + "'"); c.append('"' + 'y' * k + "'tail" + '"'); c.append("a + len('" + 'y' * k + "\"') * 2"); c.append("'" + 'a' * k + "'"); c.append("x = '" + 'é' * k + "'; x")
+    for n in (8, 16, 24, 31, 32, 33, 40, 64, 65):
+        c.append(' = '.join('x%d' % i for i in range(n)) + ' = 1 + 2 * 3')
+        c.append(' - '.join('x%d' % i for i in range(n)) + ' * 2')
+    c += ["'abc\u2019", 'x = "abc\u201d; x', "'it\u2019s' + 'x'", "\u2019", "'\u2019'", '"\u201d"', "'a' + \u2018b\u2019", '"\u201cq\u201d"']
     # inputs longer than 4 KiB / 64 KiB, with multi-byte characters around the 32nd, 64th, 4096th byte
     c.append("'" + 'é' * 2100 + "'")
     c.append("state == '" + 'Ö' * 20 + "' && city in [" + ', '.join("'Zürich%d'" % i for i in range(400)) + ']')
@@ -308,6 +331,14 @@ SCRIPTS = [
        expect=[('ast', 'Stmt([Literal(Number(3)), Reference("squared")])'), None, ('ast', 'Postfix(Literal(Number(3)), "squared")')]),
   dict(name='infix_registered_after_use', steps=[('parse', '1 ~~ 2', {}), ('reg_infix', '~~', dict(tag='t', p='115', assoc='L')), ('parse', '1 + 2 ~~ 3', {})], expect=[None, None, ('table',)]),
 ]
+def _many_registrations():
+    steps = []; exp = []
+    for i in range(45):
+        steps += [('reg_fn', 'zz', dict(tag='z%d' % i)), ('reg_fn', 'pad%d' % i, dict(tag='p%d' % i)), ('exec', 'zz()', {})]
+        exp += [None, None, ('val', 'String("z%d")' % i)]
+    steps += [('exec', 'pad0()', {}), ('exec', 'pad44()', {}), ('exec', 'min(2, 1)', {})]; exp += [('val', 'String("p0")'), ('val', 'String("p44")'), ('val', 'Number(1)')]
+    return dict(name='many_registrations_latest_wins', steps=steps, expect=exp)
+SCRIPTS.append(_many_registrations())
 def adjacency_scripts():
     out = []
     for (pa, aa, pb, ab) in [(300, 'L', 301, 'L'), (300, 'L', 301, 'R'), (300, 'R', 301, 'L'), (301, 'L', 300, 'L'), (300, 'L', 300, 'L'), (300, 'R', 300, 'R'), (300, 'L', 300, 'R'),
